@@ -1,0 +1,10 @@
+//go:build verif
+
+package common
+
+// Verification hooks (build tag verif).
+
+// VerifPending returns a copy of the bytes appended since the last challenge.
+func VerifPending(t *Transcript) []byte {
+	return append([]byte(nil), t.buff.Bytes()...)
+}
